@@ -964,7 +964,9 @@ class SamplingMethod(DirectMethod):
             if var in self.signals:
                 target = stage.sample(var,'gist')[1]
                 opti.set_initial(target, ca.repmat(value,1,target.shape[1]), cache_advanced=True)
-            for k in list(range(self.N))+[-1]:
+            # Final node first: for quantities without a final-node instance (controls, ...) k=-1 aliases
+            # the last interval, whose own pass (k=N-1) must have the last word
+            for k in [-1]+list(range(self.N)):
                 target = self.eval_at_control(stage, var, k)
                 value_k = value
                 if target.numel()*(self.N)==value.numel() or target.numel()*(self.N+1)==value.numel():
